@@ -995,6 +995,8 @@ func (e *Engine) callContract(c *Contract, fn *types.Func, recvName string, recv
 			}
 		}
 		e.callArgs[rk] = append(e.callArgs[rk], cargs)
+		// per-path count of contract calls of this callee (spec: ncalled(Callee_Name))
+		st.mem["ncalled:"+rk] = mkArith("+", st.getMem("ncalled:"+rk, mkInt(0)), mkInt(1))
 		if len(results) == 1 {
 			e.callRes[rk] = append(e.callRes[rk], results[0])
 		} else if len(results) > 1 {
